@@ -233,7 +233,7 @@ def rewards(tier, seed):
     raw = vlib.tlc_generate_raw("MCRewards", "gen/MCRewardsGen.cfg")
     scs = sample(rnd, gens_rewards.from_model(raw), {"quick": 150, "thorough": 0}[tier])
     scs += gens_rewards.rewards(rnd, {"quick": 40, "thorough": 1200}[tier])
-    return scs + regress("rewards")
+    return scs + gens_rewards.window_edges() + regress("rewards")
 
 
 def events(tier, seed):
